@@ -6,3 +6,4 @@ import SoxrModel.Properties.C08
 #print axioms Soxr.Properties.C08.drained_stays_empty
 #print axioms Soxr.Properties.C08.latency_bounded
 #print axioms Soxr.Properties.C08.every_history_runs
+#print axioms Soxr.Properties.C08.pull_loop_terminates
